@@ -215,8 +215,10 @@ def stepLine (st : St) (line : String) : St × String :=
     | .heap cfg h ph slots, ["m", k, n] =>
       match k.toNat?, n.toNat? with
       | some k, some n =>
-        let r := malloc cfg h n
-        let rp := mallocP cfg ph n (ph.brk + 1)
+        let r := malloc64 cfg h n
+        -- a request whose rounding wraps is refused before any pointer is touched
+        let rp := if n % cfg.W ≠ 0 ∧ n > SIZE_MAX - (cfg.W - n % cfg.W) then (⟨ph, none⟩ : PRes)
+          else mallocP cfg ph n (ph.brk + 1)
         let slots' := slotSet slots k r.ret
         (.heap cfg r.h rp.h slots', heapLine (optS r.ret) r.h slots' ++ ptrAgree r.h rp.h r.ret rp.ret)
       | _, _ => bad
@@ -236,10 +238,11 @@ def stepLine (st : St) (line : String) : St × String :=
     | .heap cfg h ph slots, ["r", k, n] =>
       match k.toNat?, n.toNat? with
       | some k, some n =>
-        match realloc cfg h (slotGet slots k) n with
+        match realloc64 cfg h (slotGet slots k) n with
         | none => (st, "fault")
         | some r =>
-          let rp := reallocP cfg ph (slotGet slots k) n (ph.brk + 1)
+          let rp := if n % cfg.W ≠ 0 ∧ n > SIZE_MAX - (cfg.W - n % cfg.W) then (⟨ph, none⟩ : PRes)
+            else reallocP cfg ph (slotGet slots k) n (ph.brk + 1)
           -- a NULL result leaves the old block alive
           let slots' := match r.ret with
             | none => slots
